@@ -78,6 +78,18 @@ class Semaphore:
         raise Unsupported(f'Semaphore.{name}')
 
 
+class Guarded(dict):
+    """attribute dictionary of the registerer: remembers how many holders the semaphore had at every write of a field"""
+
+    def __init__(self, d, sem):
+        super().__init__(d)
+        self.sem, self.writes = sem, []
+
+    def __setitem__(self, k, v):
+        self.writes.append((k, self.sem.held))
+        super().__setitem__(k, v)
+
+
 class RegApp:
     """the application a registerer talks to: express() records the command and plays a forwarder reply"""
 
@@ -159,6 +171,7 @@ class _RegBase(Contract):
         run.assume(z3.And(last >= 0, last <= clock.now))       # it was read from the same clock earlier
         run.ghost['reg'] = dict(app=app, sem=sem, last0=last)
         self_ = SymObj(reg.NfdRegister, dict(app=app, _prefix_register_semaphore=sem, _last_command_timestamp=last))
+        self_.d = Guarded(self_.d, sem)
         return dict(self=self_, name=BufSeq.fresh(run, 'prefix', 'bytearray'))
 
     def common_post(c, cx, result, self, name):
@@ -166,7 +179,12 @@ class _RegBase(Contract):
         app, sem = g['app'], g['sem']
         out = {'exactly_one_command': len(app.calls) == 1,
                'semaphore_released': sem.held == 0 and sem.log == ['acquire', 'release'],
-               'timestamp_strictly_increases': zint(self.d['_last_command_timestamp']) > zint(g['last0'])}
+               'timestamp_strictly_increases': zint(self.d['_last_command_timestamp']) > zint(g['last0']),
+               # the freshness test that admits a command and the command itself are one critical section: the shared
+               # timestamp is written at least once, and only by the holder of the semaphore
+               'shared_timestamp_written_only_while_holding_the_semaphore':
+                   any(k == '_last_command_timestamp' for k, h in self.d.writes)
+                   and all(h == 1 for k, h in self.d.writes if k == '_last_command_timestamp')}
         if len(app.calls) == 1:
             a, kw, held = app.calls[0]
             cmd = kw.get('name', a[0] if a else None)
@@ -186,7 +204,8 @@ class register(_RegBase):
     fn = reg.NfdRegister.register
     command = 'register'
     doc = ('NfdRegister.register sends exactly one rib/register command naming the prefix, while holding the semaphore, with a '
-           'timestamp strictly larger than the previous one; returns True iff the forwarder reply decodes to status 200; a '
+           'timestamp strictly larger than the previous one (the shared timestamp is tested and written only by the holder of '
+           'the semaphore, so test and command are one critical section); returns True iff the forwarder reply decodes to status 200; a '
            'Nack, timeout, cancellation, validation failure or other status gives False; nothing is raised')
 
     def post(c, cx, result, self, name):
